@@ -37,7 +37,11 @@ def one(job):
         src = open(path).read()
         tree = ast.parse(src)
         m = MS.Mutator(tuple(site))
-        new = m.visit(copy.deepcopy(tree))
+        try:
+            new = m.visit(copy.deepcopy(tree))
+        except Exception as e:          # noqa: BLE001
+            rec["status"] = "mutator-error: %s" % e
+            return rec
         ast.fix_missing_locations(new)
         out = ast.unparse(new)
         if not m.done or ast.dump(ast.parse(out)) == ast.dump(tree):
